@@ -59,7 +59,14 @@ def domain_for(kind, rng, i):
         return (lo, lo + round(rng.uniform(0.5, 3), 2))
     if kind == 'intbox':
         lo = rng.randint(-3, 1)
-        return (lo, lo + rng.randint(2, 6))
+        hi = lo + rng.randint(2, 6)
+        # the class documents that non-integer boundaries are allowed (it floors / ceils them)
+        r = rng.random()
+        if r < 0.2:
+            return (lo - 0.5, hi + 0.5)
+        if r < 0.35:
+            return (lo + 0.25, hi - 0.25)
+        return (lo, hi)
     if kind == 'angle':
         return (0.0, TWO_PI)
     return None
@@ -75,7 +82,7 @@ def start_value(kind, dom, rng, which=0):
     if kind == 'int':
         return rng.randint(-3, 3)
     if kind == 'intbox':
-        return rng.randint(dom[0], dom[1])
+        return rng.randint(math.ceil(dom[0]), math.floor(dom[1]))
     if kind == 'sphere':
         return rng.uniform(0.1, TWO_PI - 0.1) if which == 0 else rng.uniform(0.2, math.pi - 0.2)
     raise ValueError(kind)
